@@ -3,6 +3,7 @@ package main
 import (
 	"bytes"
 	"fmt"
+	"hash/fnv"
 	"sort"
 	"strings"
 	"time"
@@ -60,68 +61,103 @@ func short(b []byte) string {
 	return fmt.Sprintf("%x", b)
 }
 
-// tableNums lists the numbers of the table files present in the storage (checker's own view).
-func tableNums(st *vstor.Stor) []int64 {
-	var out []int64
+// fileSet identifies table files by number AND content (file numbers are reused: a removed table's number
+// may be handed to the next table written).
+type fileSet map[int64]uint64
+
+func fileHash(st *vstor.Stor, num int64) (uint64, bool) {
+	data, _, ok := st.FileBytes(storage.FileDesc{Type: storage.TypeTable, Num: num})
+	if !ok {
+		return 0, false
+	}
+	h := fnv.New64a()
+	h.Write(data)
+	return h.Sum64(), true
+}
+
+// tableFiles lists the table files present in the storage (checker's own view).
+func tableFiles(st *vstor.Stor) fileSet {
+	out := fileSet{}
 	for _, fd := range st.ListAll() {
 		if fd.Type == storage.TypeTable {
-			out = append(out, fd.Num)
+			if h, ok := fileHash(st, fd.Num); ok {
+				out[fd.Num] = h
+			}
 		}
 	}
 	return out
 }
 
-func hasTable(st *vstor.Stor, num int64) bool {
-	for _, n := range tableNums(st) {
-		if n == num {
-			return true
+// filesOf identifies the given table numbers as they are now.
+func filesOf(st *vstor.Stor, nums []int64) fileSet {
+	out := fileSet{}
+	for _, n := range nums {
+		if h, ok := fileHash(st, n); ok {
+			out[n] = h
 		}
 	}
-	return false
+	return out
 }
 
-// residue polls (<= 10 s) until every table file in the storage belongs to the live version or to the
-// still-open transaction (keep); it returns the orphan file numbers that never went away.
-func residue(db *leveldb.DB, st *vstor.Stor, keep []int64) []int64 {
+func (fs fileSet) has(num int64, h uint64) bool {
+	x, ok := fs[num]
+	return ok && x == h
+}
+
+// residue polls (<= 10 s) until every table file in the storage belongs to the live version or to keep (the
+// still-open transaction's tables, tables created by the last Open); it returns the orphan file numbers that
+// never went away.
+func residue(db *leveldb.DB, st *vstor.Stor, keep fileSet) []int64 {
 	deadline := time.Now().Add(10 * time.Second)
-	var extra []int64
 	for {
-		leveldb.VerifWaitIdle(db, 5*time.Second)
+		leveldb.VerifWaitIdleDB(db, 5*time.Second)
 		live := map[int64]bool{}
 		for _, t := range leveldb.VerifDumpVersion(db) {
 			live[t.Num] = true
 		}
-		for _, n := range keep {
-			live[n] = true
-		}
-		extra = extra[:0]
-		for _, n := range tableNums(st) {
-			if !live[n] {
+		var extra []int64
+		for n, h := range tableFiles(st) {
+			if !live[n] && !keep.has(n, h) {
 				extra = append(extra, n)
 			}
 		}
+		if len(extra) > 0 {
+			// the version may have moved between the dump and the listing
+			for _, t := range leveldb.VerifDumpVersion(db) {
+				live[t.Num] = true
+			}
+			k := 0
+			for _, n := range extra {
+				if !live[n] {
+					extra[k] = n
+					k++
+				}
+			}
+			extra = extra[:k]
+		}
 		if len(extra) == 0 {
-			// the version may have changed between the dump and the listing: confirm once more
 			return nil
 		}
 		if time.Now().After(deadline) {
-			return append([]int64(nil), extra...)
+			sort.Slice(extra, func(i, j int) bool { return extra[i] < extra[j] })
+			return extra
 		}
 		time.Sleep(2 * time.Millisecond)
 	}
 }
 
-// goneWithin polls until none of the given table files exists any more.
-func goneWithin(st *vstor.Stor, nums []int64, d time.Duration) []int64 {
+// goneWithin polls until none of the given files (same number, same content) exists any more.
+func goneWithin(st *vstor.Stor, fs fileSet, d time.Duration) []int64 {
 	deadline := time.Now().Add(d)
 	for {
 		var left []int64
-		for _, n := range nums {
-			if hasTable(st, n) {
+		for n, h := range fs {
+			if x, ok := fileHash(st, n); ok && x == h {
 				left = append(left, n)
 			}
 		}
 		if len(left) == 0 || time.Now().After(deadline) {
+			sort.Slice(left, func(i, j int) bool { return left[i] < left[j] })
 			return left
 		}
 		time.Sleep(time.Millisecond)
@@ -310,19 +346,23 @@ func optionsOf(c dbh.Cfg) (*opt.Options, comparer.Comparer) {
 	return o, o.Comparer
 }
 
-// newSince returns the table files present now that were not in pre: what an Open created (tables written
-// by journal recovery, and whatever a compaction started meanwhile). goleveldb never removes a table created
-// by journal recovery once a compaction drops it from the version (it stays until the next Open; reported to
-// the obsolete-files property, not a transaction residue), so the residue checks leave those aside.
-func newSince(st *vstor.Stor, pre []int64) []int64 {
-	was := map[int64]bool{}
-	for _, n := range pre {
-		was[n] = true
+// createdSince returns the table files created by storage operations from index fromOp on (the storage must
+// keep its op log): what an Open created — tables written by journal recovery, outputs of compactions started
+// since. goleveldb never removes a table created by journal recovery once a compaction drops it from the
+// version (it stays until the next Open; reported to the obsolete-files property, not a transaction residue),
+// so the residue checks leave the files created since the last Open aside, identified as they are at the
+// moment of the call.
+func createdSince(st *vstor.Stor, fromOp int) fileSet {
+	out := fileSet{}
+	ops := st.Ops()
+	if fromOp > len(ops) {
+		fromOp = len(ops)
 	}
-	var out []int64
-	for _, n := range tableNums(st) {
-		if !was[n] {
-			out = append(out, n)
+	for _, o := range ops[fromOp:] {
+		if o.Kind == vstor.OpCreate && o.Fd.Type == storage.TypeTable && !o.Fail {
+			if h, ok := fileHash(st, o.Fd.Num); ok {
+				out[o.Fd.Num] = h
+			}
 		}
 	}
 	return out
@@ -331,7 +371,7 @@ func newSince(st *vstor.Stor, pre []int64) []int64 {
 // eventually retries an operation that may legitimately report a transient background error for a short
 // while after the storage healed (the failed flush is retried in the background); a hang is never accepted.
 func eventually(what string, f func() error) (err error, fail string) {
-	deadline := time.Now().Add(5 * time.Second)
+	deadline := time.Now().Add(12 * time.Second)
 	for {
 		err, fail = call(what, f)
 		if fail != "" || err == nil || time.Now().After(deadline) {
